@@ -680,6 +680,10 @@ class Run(object):
             raise Reject('no odl operand')
         site = '{}/{}.{}'.format(self.kind, op['uf'], m)
         out_arr = None
+        if out and m == 'reduce' and isinstance(m_res, np.generic):
+            # a reduction over all axes into a zero-dimensional out
+            m_res = np.asarray(m_res)
+            self.ctx.fired('reduce-into-0d-out')
         if out and m != 'at' and isinstance(m_res, np.ndarray):
             out_arr = np.empty(m_res.shape, dtype=m_res.dtype)
             fill_garbage(out_arr, op['fill'], 3)
